@@ -290,8 +290,34 @@ def r07_11(ctx) -> None:
     from .common import resolve_all
     from ..cfg import cfg_of
     n = 0
-    for short in ("rfc7797.compact:_extract_compact", "rfc7797.json:_extract_json"):
-        fn = eng.prog.func(short)
+    for short, host, plain in (("rfc7797.compact:_extract_compact", "rfc7797.compact:deserialize_compact", "jws:deserialize_compact"),
+                               ("rfc7797.json:_extract_json", "rfc7797.json:deserialize_json", "jws:deserialize_json")):
+        try:
+            fn = eng.prog.func(short)
+        except AnalysisError:
+            # the extractor was dissolved into the reader (its parts are inlined there): the "ordinary token" conclusion is the hand-over to the plain
+            # RFC 7515 reader, and on every path to one a membership test of "b64" in the parsed header was taken
+            fn = eng.prog.func(host)
+            target = eng.prog.func(plain)
+            cfg = cfg_of(fn)
+            sites = [s for s in eng.cg.calls_in(fn) if target in s.callees and isinstance(s.node, ast.Call)]
+            if not sites:
+                raise AnalysisError(f"R07.11: {host} no longer hands ordinary tokens to {plain}")
+            for s_ in sites:
+                cn = cfg.node_of(s_.node)
+                for path in (cfg.guards_of(cn) if cn is not None else []):
+                    n += 1
+                    ok = False
+                    for t, _out in path:
+                        c = t.ast
+                        if t.kind == "test" and isinstance(c, ast.Compare) and len(c.ops) == 1 and isinstance(c.ops[0], (ast.In, ast.NotIn)) and const_value(c.left) == "b64":
+                            srcs = resolve_all(eng, fn, c.comparators[0])
+                            if srcs and all(("decode_header(" in x) or ("json_b64decode(" in x) or x.endswith(".headers()") for x in srcs):
+                                ok = True
+                    ctx.check(ok, "R07.11", fn, s_.node, f"{fn.short} :: hand-over to {plain} at line {s_.node.lineno}",
+                              "the reader hands a token to the plain RFC 7515 reader without having asked the parsed header for a b64 member", "if 'b64' not in <decoded header>: return plain(...)",
+                              construct=f"'no b64' conclusion in {fn.short} not from the parsed header")
+            continue
         cfg = cfg_of(fn)
         exits = [r for r in cfg.returns() if r.ast.value is None or is_const(r.ast.value, None)]  # type: ignore[union-attr]
         falloff = [e for e, _lab in cfg.normal_exits() if not isinstance(e.ast, ast.Return)]
